@@ -168,6 +168,9 @@ func (m *Menu) Sizes(ctx context.Context) ([4]uint32, error) {
 	var menuSizes [4]uint32
 	cfg := m.GetBrowseConfig()
 	tmpm := NewMenu().WithBrowseConfig(cfg)
+	// the entries are measured as they will be rendered: with this menu's separator and label lookup
+	tmpm.sep = m.sep
+	tmpm.rs = m.rs
 	v, err := tmpm.Render(ctx, 0)
 	if err != nil {
 		return menuSizes, err
